@@ -57,7 +57,7 @@ def track_events(td, bpm, repeat, with_name=True, with_instrument=True):
                     for (n, o, c, vel) in e["notes"]:
                         ev.append((tick, "on", c, T.pitch(n, o) + 12, vel))
                     for (n, o, c, vel) in e["notes"]:
-                        ev.append((tick + d, "off", c, T.pitch(n, o) + 12))
+                        ev.append((tick + d, "off", c, T.pitch(n, o) + 12, vel))
                 tick += d
     return ev
 
@@ -84,7 +84,7 @@ def decode_events(track_events_raw):
         elif e[1] == "on":
             ev.append((t, "on", e[2], e[3], e[4]))
         elif e[1] == "off":
-            ev.append((t, "off", e[2], e[3]))
+            ev.append((t, "off", e[2], e[3], e[4]))  # the matching note-off carries the note's velocity as well
         elif e[1] == "cc" and e[3] == 0:
             ev.append((t, "bank", e[2]))
         elif e[1] == "pc":
